@@ -383,7 +383,7 @@ class C09:
         live = {f[0]: f[1] for f in files}
         metas = []          # (out, version)
         nsteps = rng.randint(6, 15)
-        big = tier == "thorough" and rng.random() < 0.15
+        big = rng.random() < (0.15 if tier == "thorough" else 0.06)
         fresh_id = [0]
 
         def mk_create():
